@@ -14,6 +14,7 @@
 #include <string>
 #include <typeinfo>
 #include <pthread.h>
+#include <sys/time.h>
 #include <time.h>
 #include <unistd.h>
 #include <vector>
@@ -77,19 +78,35 @@ inline void on_alarm(int)
   std::_Exit(79);
 }
 
+// The watchdog has two limits, neither of which is ever an input of a verdict about a run that
+// finishes: `seconds` of CPU time (a run that spins) and 6 x `seconds` of wall clock (a run that is
+// blocked). CPU time is the sharp one: a heavily loaded machine can stall a process for seconds of
+// wall clock, it cannot make a microsecond run consume ten seconds of CPU.
+inline long process_cpu_seconds()
+{
+  timespec ts{};
+  ::clock_gettime(CLOCK_PROCESS_CPUTIME_ID, &ts);
+  return static_cast<long>(ts.tv_sec);
+}
 #if defined(__SANITIZE_THREAD__)
 // ThreadSanitizer delivers an asynchronous signal only when the thread reaches an interceptor it
-// regards as blocking; a fiber stuck inside a real pthread_mutex_lock never does, so SIGALRM
-// alone cannot end a hung run there. A helper thread watches the deadline instead. It touches
+// regards as blocking; a fiber stuck inside a real pthread_mutex_lock never does, so timer signals
+// alone cannot end a hung run there. A helper thread watches the deadlines instead. It touches
 // nothing the simulation uses (no mutex, no atomic, no allocation).
-inline long volatile &watchdog_deadline()
+inline long volatile &watchdog_wall_deadline()
+{
+  static long volatile d = 0;
+  return d;
+}
+inline long volatile &watchdog_cpu_deadline()
 {
   static long volatile d = 0;
   return d;
 }
 __attribute__((noinline, no_sanitize("thread"))) inline void watchdog_arm(unsigned seconds)
 {
-  watchdog_deadline() = seconds == 0 ? 0 : static_cast<long>(::time(nullptr)) + static_cast<long>(seconds) + 1;
+  watchdog_wall_deadline() = seconds == 0 ? 0 : static_cast<long>(::time(nullptr)) + 6 * static_cast<long>(seconds) + 1;
+  watchdog_cpu_deadline() = seconds == 0 ? 0 : process_cpu_seconds() + static_cast<long>(seconds) + 1;
 }
 __attribute__((noinline, no_sanitize("thread"))) inline void *watchdog_main(void *)
 {
@@ -97,8 +114,9 @@ __attribute__((noinline, no_sanitize("thread"))) inline void *watchdog_main(void
   {
     timespec ts{0, 250000000};
     ::nanosleep(&ts, nullptr);
-    long const d = watchdog_deadline();
-    if (d != 0 && static_cast<long>(::time(nullptr)) > d)
+    long const w = watchdog_wall_deadline();
+    long const c = watchdog_cpu_deadline();
+    if ((w != 0 && static_cast<long>(::time(nullptr)) > w) || (c != 0 && process_cpu_seconds() > c))
     {
       died();
       std::_Exit(79);
@@ -117,7 +135,10 @@ inline void watchdog_start() {}
 #endif
 inline void arm(unsigned seconds)
 {
-  ::alarm(seconds);
+  ::alarm(6 * seconds);
+  itimerval it{};
+  it.it_value.tv_sec = static_cast<time_t>(seconds);
+  ::setitimer(ITIMER_PROF, &it, nullptr);
   watchdog_arm(seconds);
 }
 
@@ -340,6 +361,7 @@ inline int sim_main(int argc, char **argv)
   std::signal(SIGILL, &detail::on_signal);
   std::set_terminate(&detail::on_terminate);
   std::signal(SIGALRM, &detail::on_alarm);
+  std::signal(SIGPROF, &detail::on_alarm);
   detail::watchdog_start();
 
   if (mode == "gen")
